@@ -336,6 +336,16 @@ theorem names_abstraction_ok :
     (∀ p ∈ Gen.D3.markSites, ((V3.lvlMs p.1).find? (fun m => m.spec.name == p.2)).isSome = true) ∧
     (∀ p ∈ Gen.D2.markSites, ((V2.lvlMs p.1).find? (fun m => m.spec.name == p.2)).isSome = true) := markSites_ok
 
+/-- the obligation under which `errs.Wrap(cvsserr.ErrX, …)` is the constructor `.x` of `Err` and `errs.Is` is equality of
+    constructors: the package-level variables of /repo/cvsserr are exactly the model's eleven sentinels, and every one is its
+    own `errors.New(<literal>)` value (no second name for a value, no sentinel defined in terms of another) -/
+theorem sentinels_are_distinct_values :
+    (∀ e : Err, e ∈ Err.all) ∧
+    (∀ e ∈ Err.all, ("Err" ++ e.tag) ∈ Gen.Errs.sentinels.map (·.1)) ∧
+    Gen.Errs.sentinels.length = Err.all.length ∧
+    (∀ s ∈ Gen.Errs.sentinels, s.2.1 = "new") := by
+  refine ⟨fun e => by cases e <;> decide, ?_, ?_, ?_⟩ <;> decide
+
 /-- non-vacuity: the translated decoder really decodes -/
 example : (Gen.D3.Base_Decode Gen.D3.NewBase b!"CVSS:3.1/AV:N/AC:L/PR:N/UI:N/S:U/C:H/I:H/A:H").map (fun r => r.2) = some (true, none) ∧
     (Gen.D3.Base_Decode Gen.D3.NewBase b!"CVSS:3.1/AV:N/AC:L/PR:N/UI:N/S:U/C:H/I:H").map (fun r => r.2) = some (false, some .noBaseMetrics) ∧
